@@ -143,15 +143,13 @@ void harness(void)
 		}
 	}
 	if (wr < 0) {
-		int wb = strstr(T[t], "\\<") || strstr(T[t], "\\>");
 		symx_reach("notfound");
-		symx_assert(ret != 0, wb ? "nothing to find: the search fails (word boundary at the cut)" : "nothing to find: the search fails");
-		symx_assert(r == r0 && o == o0, wb ? "nothing found: the position is unchanged (word boundary at the cut)" : "nothing found: the position is unchanged");
+		symx_assert(ret != 0, "nothing to find: the search fails");
+		symx_assert(r == r0 && o == o0, "nothing found: the position is unchanged");
 	} else {
-		const char *lab = strstr(T[t], "\\<") || strstr(T[t], "\\>") ?
-			"the search lands on the reference match (word boundary at the cut)" : "the search lands on the reference match";
+		const char *lab = "the search lands on the reference match";
 		symx_reach("found");
-		symx_assert(ret == 0, strstr(T[t], "\\<") || strstr(T[t], "\\>") ? "an existing match is found (word boundary at the cut)" : "an existing match is found");
+		symx_assert(ret == 0, "an existing match is found");
 		if (ret == 0) {
 			symx_assert(r == wr && o == wo, lab);
 			if (r == wr && o == wo)
